@@ -101,6 +101,21 @@ class AbsFile(io.IOBase):
             raise PyRaise(TypeError("a bytes-like object is required, not 'str'"))
         if isinstance(b, (bytes, bytearray)) and "b" not in self.mode:
             raise PyRaise(TypeError("write() argument must be str, not bytes"))
+        if type(b).__name__ == "JSText" and not b.ascii and "b" not in self.mode and getattr(self, "errors", None) == "strict":
+            # JSON text written with ensure_ascii=False carries its characters as they are: a text file with the default (strict) error handler
+            # cannot encode a surrogate (undecodable bytes kept by surrogateescape arrive as lone surrogates)
+            from .jsonm import text_leaves
+            from ..values import SStr
+
+            for leaf in text_leaves(b.tree):
+                if isinstance(leaf, str):
+                    try:
+                        leaf.encode("utf-8")
+                    except UnicodeEncodeError as e:
+                        raise PyRaise(e)
+                elif isinstance(leaf, SStr):
+                    no_sur = z3.Star(z3.Union(z3.Range(chr(0), chr(0xD7FF)), z3.Range(chr(0xE000), chr(0x2FFFF))))
+                    it.require(z3.InRe(leaf.t, no_sur), UnicodeEncodeError("utf-8", "<symbolic>", 0, 1, "surrogates not allowed"))
         n = length_of(b)
         if isinstance(b, BCat):
             for part in b.parts:  # one write call, the parts lie one after the other in the file
